@@ -59,7 +59,11 @@ OthersSilentOK == \A j \in DOMAIN impls : A \notin DeclFor(j) => (j \notin Cd /\
 EarlierOK      == \A j \in DOMAIN impls : (A \in DeclFor(j) /\ j < Latest(A)) => j \notin Cd
 BackfillOK     == LET L == Latest(A) IN (L # 0 /\ ~YieldsIn(L, impls, Ev.outc, Ev.houtc)) => Ev.pval = 0
 ResolvesOK     == Ev.pval = ExpectedIn(A, impls, Ev.outc, Ev.houtc)
-SeededOK       == Ev.pval = SeedExpectedIn(impls, Sd, Ev.outc) /\ Cd \cap Sd = {}
+(* seeded broker: judged on the registry point alone - it hands on the value of the most recently   *)
+(* registered implementation that HOLDS one (Ev.has, observed); which implementations obtain a      *)
+(* value from seeded ones is the engine's business (archive pruning, C01) and not constrained here  *)
+Hd             == Rng(Ev.has)
+SeededOK       == Ev.pval = LatestHolding(Hd) /\ Cd \cap Sd = {} /\ Sd \subseteq Hd
 
 EvalOK ==
     /\ EvalShapeOK
@@ -97,7 +101,8 @@ DiagEval ==
     ELSE IF A = 0 THEN
         (IF Cd \cap Sd # {} THEN "SeededResolvesToLatest:seeded-implementation-re-run"
          ELSE "SeededResolvesToLatest:" \o
-              (IF Ev.pval = 0 THEN "absent" ELSE IF Ev.pval \in Sd THEN "earlier-seeded-value" ELSE "other-value"))
+              (IF ~(Sd \subseteq Hd) THEN "seeded-value-lost"
+               ELSE IF Ev.pval = 0 THEN "absent" ELSE IF Ev.pval \in Hd THEN "earlier-value" ELSE "other-value"))
     ELSE IF ~OthersSilentOK THEN
         (LET j == CHOOSE j \in DOMAIN impls : A \notin DeclFor(j) /\ (j \in Cd \/ Ev.pval = j)
          IN "OtherContextsSilent:" \o KindOf(j) \o (IF Ev.pval = j THEN ":supplies-value" ELSE ":executed"))
